@@ -46,6 +46,11 @@ def handle (toks : List String) : Option String :=
       pure ("|".intercalate (ls.map fun l => showLimited full (emitLimited m l)))
     | _ => pure "undecodable"
   -- a `RecordTypeSet` built with `new` (no original encoding): `NSEC::new(root, types)` emitted afresh
+  | ["undec", hex] => do
+    let buf ← parseHex hex
+    match decode buf with
+    | .ok _ => pure "decodes"
+    | _ => pure "undecodable"
   | ["tsnew", types] => do
     let ts ← (if types == "-" then some [] else (types.splitOn ",").mapM String.toNat?)
     match emitRData 47 (.nsec Name.root { types := ts, orig := none }) (Enc.new []) with
